@@ -1,27 +1,45 @@
 (* Property C02 — statements only.  Each theorem is closed by [exact] of a lemma proved in
    the C02/ files; Print Assumptions is evaluated by ./check on every run.
 
-   Reading guide.  [check] is the Gallina model of the gate as it is in /repo
+   Reading guide.  [check] is the Gallina model (C02/Model.v) of the gate as it is in /repo
    (tsk_treeseq_init -> tsk_table_collection_check_integrity(TSK_CHECK_TREES));
    [check_repaired] is the same code with the two one-condition repairs of findings F1/F14;
-   [ValidTS] (C02/Spec.v) is the declarative data-model predicate; [WF] is the reachable-state
-   invariant "columns of a table have equal length, ragged offsets well formed, index arrays
-   as long as the edge table". *)
+   [ValidTS] (C02/Spec.v) is the declarative data-model predicate, one clause per requirement;
+   [WF] is the reachable-state invariant "columns of a table have equal length, ragged offsets
+   well formed, index arrays as long as the edge table" — cell VALUES are arbitrary. *)
 From Coq Require Import List ZArith.
-From TskVerif Require Import Base.Common C02.Fl C02.Model C02.Spec C02.Sound C02.Refuted.
+From TskVerif Require Import Base.Common C02.Fl C02.Model C02.Spec C02.Sound C02.Refuted C02.Top.
+Open Scope Z_scope.
+
+(* (a) the gate never indexes out of bounds, whatever the cell values: every id is
+   range-checked before it is used as an array index.  FULL statement, both variants. *)
+Theorem check_no_oob : forall t, WF t -> check t <> OOB /\ check_repaired t <> OOB.
+Proof. exact check_no_oob_top. Qed.
 
 (* (b) soundness of the gate as it is: every clause of ValidTS except the two refuted below.
-   PARTIAL with respect to the full statement  check t = Ok n -> ValidTS t : missing are
-   "removal order is a permutation" (F1) and "sequence_length is finite" (F14, here a hypothesis). *)
+   PARTIAL with respect to  check t = Ok n -> ValidTS t : missing are "the removal order is a
+   permutation" (F1) and "sequence_length is finite" (F14; here a hypothesis). *)
 Theorem check_sound_partial : forall t n z,
   WF t -> seqlen t = Fin z -> check t = Ok n -> ValidTS_but_F1_F14 t.
 Proof. exact check_sound_partial_lemma. Qed.
 
-(* (b') the full soundness statement holds for the repaired gate *)
+(* (b') the FULL soundness statement holds for the repaired gate *)
 Theorem check_repaired_sound : forall t n, WF t -> check_repaired t = Ok n -> ValidTS t.
 Proof. exact check_repaired_sound_lemma. Qed.
 
-(* (d) REFUTED on the faithful model: the full soundness statement fails for the code as it is *)
+(* (c) completeness: every valid collection is accepted (code as it is, and repaired).
+   FULL up to the stated bound excluding TSK_ERR_TREE_OVERFLOW; includes that the fuel of the
+   model's main loop is sufficient. *)
+Theorem check_complete : forall t, WF t -> ValidTS t -> 2 * num_edges t + 1 < TSK_MAX_ID ->
+  (exists n, check t = Ok n) /\ (exists n, check_repaired t = Ok n).
+Proof. exact check_complete_top. Qed.
+
+(* (b'+c) the repaired gate decides ValidTS exactly *)
+Theorem check_repaired_iff : forall t, WF t -> 2 * num_edges t + 1 < TSK_MAX_ID ->
+  ((exists n, check_repaired t = Ok n) <-> ValidTS t).
+Proof. exact check_repaired_iff_top. Qed.
+
+(* (d) REFUTED on the faithful model: full soundness fails for the code as it is *)
 Theorem check_sound_index_refuted :
   exists t, WF t /\ SeqlenOK t /\ check_integrity faithful opts_trees t = Ok 1 /\ ~ IndexOK t.
 Proof. exact f1_refuted. Qed.
